@@ -7,6 +7,7 @@ package puppet
 
 import (
 	"fmt"
+	"runtime"
 	"sync"
 	"sync/atomic"
 
@@ -42,6 +43,9 @@ type Call struct {
 	Args  map[string]any // all arguments by name
 	Buf   []byte         // ReadAt destination (so the controller may fill it)
 	Reply chan Result
+	// G is the id of the goroutine that made the call (the handler goroutine
+	// of one request).
+	G int64
 	// AfterClose is set when the receiver (or F2) had already been closed.
 	AfterClose bool
 }
@@ -106,7 +110,23 @@ func (c *Controller) newFile(id int, mode string, path []string) *File {
 	return f
 }
 
+// goid returns the current goroutine's id (from the stack header).
+func goid() int64 {
+	var buf [64]byte
+	n := runtime.Stack(buf[:], false)
+	// "goroutine 123 [running]:"
+	var id int64
+	for _, ch := range buf[10:n] {
+		if ch < '0' || ch > '9' {
+			break
+		}
+		id = id*10 + int64(ch-'0')
+	}
+	return id
+}
+
 func (c *Controller) do(call *Call) Result {
+	call.G = goid()
 	call.Seq = atomic.AddInt64(&c.seq, 1)
 	call.Reply = make(chan Result, 1)
 	c.Calls <- call
